@@ -23,7 +23,7 @@ RULE = ("The product lhs-kind x rhs-kind x sense x written-direction is enumerat
         "hands to scipy.optimize.minimize (captured at the minimize seam) have type ineq/eq, fun = s*(l-r) "
         "with s=-1 for <=, +1 for >=, and jac = s*grad(l-r) with the SAME s.  Non-trivial = operand kinds are "
         "not (expression, Python float), or reflected spelling, or more than one element.")
-BUDGET = {"quick": {"workers": 16, "per_cell": 3}, "thorough": {"workers": 16, "per_cell": 40}}
+BUDGET = {"quick": {"workers": 16, "per_cell": 5}, "thorough": {"workers": 16, "per_cell": 40}}
 ASSUMPTIONS = ["scalar-expression right-hand sides of vector/matrix comparisons are not a documented operand pair and are not generated"]
 MANIFEST = {
  "technique": "property-based testing (Hypothesis) over an exhaustively enumerated operand-kind product; solver-side dicts captured at the minimize seam",
